@@ -110,6 +110,7 @@ type Frame struct {
 	iter    *iterMode
 	loopDefers []*ssa.Defer
 	reads   []tokenRead
+	forceClaim bool // the next nil obligation is claimed (safederef)
 }
 
 func (vc *VC) note(format string, a ...any) {
@@ -171,6 +172,13 @@ func (f *Frame) safe(kind, goal, desc string, p token.Pos) {
 	claimed := f.vc.safety
 	if claimed && f.vc.contract != nil && f.vc.contract.SafeKinds != nil {
 		claimed = f.vc.contract.SafeKinds[kind] && f.top
+	}
+	var tags []string
+	if f.forceClaim && kind == "nil" {
+		claimed = true
+		tags = f.vc.contract.SafeDerefTags
+		f.oblige("nil:deref", goal, desc+" (copied into a package-level variable)", p, tags, true)
+		return
 	}
 	f.oblige(kind, goal, desc, p, nil, claimed)
 }
@@ -439,6 +447,11 @@ func (f *Frame) run(reach0 string) {
 			f.checkInvariants(li, "inv-init", func(p *ssa.Phi) Val { return entryPhi[p] }, phis, st)
 			// havoc
 			mod := vc.loopMod(li)
+			if f.top && vc.contract != nil {
+				for _, l := range vc.calledLocsIn(li) {
+					mod.add(l, LocInfo{Kind: "G", Val: types.Typ[types.Bool]}) // ghost "was called" flags
+				}
+			}
 			pre := st.clone()
 			f.havocKeeping(st, mod, pkgOfFn(f.fn))
 			if f.top && !mod.Top {
@@ -1131,7 +1144,19 @@ func (f *Frame) unop(x *ssa.UnOp) {
 		if x.CommaOk {
 			unsupported("comma-ok load")
 		}
+		// `safederef <pkg.Global>`: the nil obligation of a load whose value is stored into that
+		// package-level variable is claimed (the copy `Global = *p` must not be reached with p == nil)
+		if f.top && vc.contract != nil && len(vc.contract.SafeDeref) > 0 {
+			for _, r := range *x.Referrers() {
+				if st, ok := r.(*ssa.Store); ok && st.Val == ssa.Value(x) {
+					if g, ok := st.Addr.(*ssa.Global); ok && vc.contract.SafeDeref[g.Pkg.Pkg.Name()+"."+g.Name()] {
+						f.forceClaim = true
+					}
+				}
+			}
+		}
 		f.vals[x] = f.load(v, x.Pos())
+		f.forceClaim = false
 	case token.NOT:
 		f.vals[x] = Val{t: not(v.t), typ: x.Type()}
 	case token.SUB:
